@@ -146,7 +146,7 @@ func c16ProviderSet(w *core.World, id string) []core.Result {
 	if mapFn == nil {
 		return []core.Result{core.Bad(id, "PROV", "PROV:"+gc+":provider-set", "", "the mapping function of the provider-id set cannot be resolved")}
 	}
-	if len(w.Sites(mapFn, regexp.MustCompile(`^return \$0\.Status\.ProviderID$`), false)) == 0 {
+	if len(w.SitesOr(mapFn, regexp.MustCompile(`^return \$0\.Status\.ProviderID$`), false, 1)) == 0 {
 		return []core.Result{core.Bad(id, "PROV", "PROV:"+gc+":provider-set", w.Pos(mapFn.Pos()), "the provider's NodeClaims are not keyed by Status.ProviderID")}
 	}
 	// the closure that tests membership captures that very set
@@ -154,7 +154,7 @@ func c16ProviderSet(w *core.World, id string) []core.Result {
 	if pred == nil {
 		return []core.Result{core.Bad(id, "PROV", "PROV:"+gc+":filter", "", "filter predicate cannot be resolved")}
 	}
-	if len(w.Sites(pred, regexp.MustCompile(`^call \(apim/util/sets\.Set\[string\]\)\.Has\(\^apim/util/sets\.New\[string\]\(lo\.Map\[`), false)) == 0 {
+	if len(w.SitesOr(pred, regexp.MustCompile(`^call \(apim/util/sets\.Set\[string\]\)\.Has\(\^apim/util/sets\.New\[string\]\(lo\.Map\[`), false, 1)) == 0 {
 		return []core.Result{core.Bad(id, "PROV", "PROV:"+gc+":filter", w.Pos(pred.Pos()), "the membership test does not consult the set built from the provider's List")}
 	}
 	return rs
@@ -170,7 +170,7 @@ func c16Threshold(w *core.World, id string) []core.Result {
 	if initFn == nil {
 		return append(rs, core.Anchor(id, "PROV", "controllers/node/health.init"))
 	}
-	if len(w.Sites(initFn, regexp.MustCompile(`^store controllers/node/health\.allowedUnhealthyPercent = apim/util/intstr\.FromString\("20%"\)$`), true)) == 0 {
+	if len(w.SitesOr(initFn, regexp.MustCompile(`^store controllers/node/health\.allowedUnhealthyPercent = apim/util/intstr\.FromString\("20%"\)$`), true, 1)) == 0 {
 		rs = append(rs, core.Bad(id, "PROV", "PROV:allowedUnhealthyPercent", w.Pos(initFn.Pos()), `allowedUnhealthyPercent is no longer intstr.FromString("20%")`))
 	}
 	return rs
